@@ -3,6 +3,11 @@ package c02
 
 import (
 	"context"
+	"strings"
+
+	"git.defalsify.org/vise.git/engine"
+	"vharness/app"
+	"vharness/apps"
 
 	"vharness/c01"
 	"vharness/vrt"
@@ -173,6 +178,158 @@ func Walk(v *vrt.Ctx) {
 	}
 }
 
+// EngineWalk: the paginated list of the intro application is walked through
+// the engine with the next selector, for a symbolic output size: every row
+// appears exactly once and in order, 'next' is offered on every page but the
+// last, and stepping back with 'previous' shows the previous page again.
+func EngineWalk(v *vrt.Ctx) {
+	ctx := context.Background()
+	size := v.U32("outputsize")
+	v.Assume(size >= 16 && size <= 200)
+	cfg := engine.Config{Root: "root", FlagCount: 4, SessionId: "s1", OutputSize: size}
+	en := engine.NewEngine(cfg, apps.Intro())
+	rows := []string{"alpha", "beta", "gamma", "delta", "epsilon", "zeta"}
+	// F12: a later row that (nearly) fills a middle page of its own: page text
+	// without rows but with both browse entries is 29 bytes, the longest row 7
+	v.Finding("F12-later-row-fills-page", size < 29+7+4)
+	request := func(in string) (string, error) {
+		_, err := en.Exec(ctx, []byte(in))
+		if err != nil {
+			return "", err
+		}
+		w := &app.Sink{}
+		_, err = en.Flush(ctx, w)
+		return w.S, err
+	}
+	_, err := request("")
+	v.Assume(err == nil)
+	page, err := request("2")
+	if err != nil {
+		v.Cover("C02/engine-list-does-not-fit")
+		return
+	}
+	next := 0
+	var pages []string
+	for n := 0; n < 8; n++ {
+		pages = append(pages, page)
+		lines := strings.Split(page, "\n")
+		hasNext, hasPrev := false, false
+		for _, l := range lines {
+			for i := next; i < len(rows); i++ {
+				if l == rows[i] {
+					v.Assert(i == next, "C02/engine-rows-in-order-exactly-once")
+					next = i + 1
+				}
+			}
+			if l == "11:next" {
+				hasNext = true
+			}
+			if l == "22:prev" {
+				hasPrev = true
+			}
+		}
+		v.Assert(hasPrev == (n > 0), "C02/engine-previous-on-all-but-the-first-page")
+		if !hasNext {
+			break
+		}
+		v.Assert(next < len(rows), "C02/engine-next-offered-on-the-last-page")
+		page, err = request("11")
+		v.Assert(err == nil, "C02/engine-offered-next-renders")
+	}
+	v.Assert(next == len(rows), "C02/engine-rows-missing")
+	v.Observe("pages", len(pages))
+	// one step back shows the previous page again
+	if len(pages) > 1 {
+		back, err := request("22")
+		v.Assert(err == nil && back == pages[len(pages)-2], "C02/engine-previous-shows-the-previous-page")
+		v.Cover("C02/engine-multi-page")
+	} else {
+		v.Cover("C02/engine-single-page")
+	}
+}
+
+// ByteWalk: the same walk with rows of symbolic bytes (any byte but LF, the
+// row separator; blanks, tabs and other bytes a trim or a split could treat
+// specially included; not NUL, which the renderer reserves) instead of uninterpreted chunks, short concrete
+// surroundings and a symbolic output size. Row lengths are concrete per path,
+// so the rows of a page are identified by the page's length (rows are not
+// empty, the documented page grows strictly with every row) and the page is
+// compared byte for byte with the documented one.
+func ByteWalk(v *vrt.Ctx) {
+	nrows := v.Param("rows")
+	maxlen := v.Param("maxlen")
+	c := &c01.Cfg{Static: "hd", HasSink: true}
+	c.Size = v.U32("outputsize")
+	v.Assume(c.Size > 0 && c.Size <= 64)
+	for i := 0; i < nrows; i++ {
+		n := 1 + v.Choice("rowlen", maxlen)
+		b := v.Bytes("row", n)
+		for _, x := range b {
+			// LF separates rows; NUL is the renderer's reserved in-page
+			// separator (rows are text), as for the uninterpreted chunks
+			v.Assume(x != '\n')
+			v.Assume(x != 0)
+		}
+		c.Rows = append(c.Rows, string(b))
+	}
+	c.Menu = [][2]string{{"0", "x"}}
+	c.Browse = 2
+	c.NextSel, c.NextTtl, c.PrevSel, c.PrevTtl = "1", "n", "2", "p"
+	rows := c.Rows
+	base := len(expected(c, rows, 0, -1, false, false))
+	big := false
+	for i := 1; i < len(rows); i++ {
+		big = v.Or(big, len(rows[i])+base+4 > int(c.Size))
+	}
+	v.Finding("F12-later-row-fills-page", big)
+	ctx := context.Background()
+	var pages []string
+	P := -1
+	for idx := 0; idx <= len(rows)+2; idx++ {
+		pg, ok := c.Page(v)
+		v.Assume(ok)
+		out, err := pg.Render(ctx, "node", uint16(idx))
+		if err != nil {
+			P = idx
+			break
+		}
+		pages = append(pages, out)
+	}
+	v.Assert(P >= 0, "C02/more-pages-than-rows")
+	v.Observe("pages", P)
+	if P == 0 {
+		v.Cover("C02/bytes-does-not-fit")
+		return
+	}
+	if P == 1 {
+		v.Cover("C02/bytes-single-page")
+	} else {
+		v.Cover("C02/bytes-multi-page")
+	}
+	next := 0
+	for j, out := range pages {
+		v.Assert(uint64(len(out)) <= uint64(c.Size), "C02/bytes-page-fits")
+		a := next
+		b := -1
+		for k := a; k < len(rows); k++ {
+			if len(expected(c, rows, a, k, j == 0, j == P-1)) == len(out) {
+				b = k
+				break
+			}
+		}
+		v.Observe("page", out)
+		v.Assert(b >= a, "C02/bytes-page-is-whole-rows-in-order")
+		if b < a {
+			return
+		}
+		v.Assert(out == expected(c, rows, a, b, j == 0, j == P-1), "C02/bytes-page-is-the-documented-page")
+		next = b + 1
+	}
+	v.Assert(next == len(rows), "C02/bytes-rows-missing")
+}
+
 var Harnesses = map[string]func(*vrt.Ctx){
-	"Walk": Walk,
+	"Walk":       Walk,
+	"EngineWalk": EngineWalk,
+	"ByteWalk":   ByteWalk,
 }
